@@ -76,6 +76,12 @@ impl AssemblyContext {
         self.is_kernel
     }
 
+    /// Returns true if the module currently being compiled is the kernel module itself (as opposed
+    /// to a library module loaded while a kernel is being compiled).
+    pub fn is_kernel_module(&self) -> bool {
+        self.is_kernel && self.module_stack.last().map_or(false, |m| m.path.is_kernel_path())
+    }
+
     /// Returns the number of memory locals allocated for the procedure currently being compiled.
     pub fn num_proc_locals(&self) -> u16 {
         self.current_proc_context().expect("no procedures").num_locals
